@@ -57,20 +57,23 @@ class C11(Prop):
                   "all of them if drop-oldest never fired (C11_prefix_metadata_then_metrics_in_order); client_count = |clients| and should_send = (|clients| > 0) "
                   "(C11_client_count_exact); start-up reaches the loop for every limit (C11_starts_for_every_limit); the Spec decoder inverts the modelled prost encoding of Metadata and Metric events for all names, "
                   "label lists, timestamps, operations and values (C11_fields/metadata/metric_roundtrip: name, labels, operation kind and value intact); a stream of the proved shape passes the boolean "
-                  "stream check (C11_stream_log_ok_reflect) and the model's own run passes spec_ok (C11_spec_ok_on_model, see note). "
+                  "stream check (C11_stream_log_ok_reflect) and the model's own run passes spec_ok, also for clients the model has removed (C11_spec_ok_on_model_all_clients, C11_removed_client_stream; see note). "
                   "In a separate small interleaving model of push_metric / waker / receive loop, waking after every try_send never leaves a message in the channel with the transport parked "
                   "(C11_wake_always_never_stuck); the wake-only-if-empty variant does (C11_wake_if_was_empty_gets_stuck). The five defects are refuted on the pre-fix "
                   "settings of the model (C11_*_refuted_before_fix). Trace validation ties the model to /repo: every run replays the hook log of real exporters "
                   "on real sockets through the model and compares per-client byte streams and boundary counters; spec_ok is evaluated on the streams the clients read.")
-    level_note = ("C11_spec_ok_on_model (the model's own run passes spec_ok, all clauses) is proved under case_wf, which contains one named hypothesis, still_connected: every client "
-                  "entry of the case is still connected in the model's final state. Streams of clients the model has removed (the `gone` ghost) are therefore not covered by that theorem "
-                  "(no invariant was proved for removed clients); they are validated per run only (prefix agreement with the model, spec_ok on the bytes read). The hypotheses are shown "
-                  "satisfiable on a concrete case (C11_spec_ok_on_model_example). harness_ok (what the exporter drained from its channel = what the harness described and emitted: the end-to-end "
-                  "delivery clause) is a hypothesis of that theorem and is evaluated on every run, not proved: it depends on the channel and the should_send gate seen from other threads, "
-                  "which are not modelled (the Metric encoding is modelled, proved invertible and compared byte for byte per run). The emitter-to-transport wake-up handshake is covered on the code by test only: a free-running engine "
-                  "(real exporter thread, reading clients, emitters paced at about the drain rate, rounds within the buffer; a stall = nothing arrives for 15 s while emissions are outstanding) "
-                  "samples schedules and proves nothing; the Wake.v model of the handshake is not tied to the code by trace validation (emitter-side steps are not hooked). "
-                  "`overflowed` is a ghost flag set where drop-oldest discards (to_drain > 0). Trusted: Coq kernel; hand-written model; cfg(metrics_verif) hooks (event log, socket wrapper that scripts some write results).")
+    level_note = ("C11_spec_ok_on_model_all_clients (the model's own run passes spec_ok, all clauses, also for clients the model has removed by the end of the run) is proved under "
+                  "case_wf_all: the recorded events are a run of the model, wake-up frames are encoded metrics, the run ends quiet, every client entry names its accept, agrees with the log on "
+                  "discards and has a model record (connected or in the `gone` ghost); the former hypothesis still_connected is gone. What remains of it is the meaning of the mark: a client "
+                  "marked as staying is connected in the model's final state (for a staying client the model had removed the statement is false). Removed clients: C11_removed_client_stream "
+                  "(whole frames plus a proper prefix, a subsequence of what was enqueued, which is a prefix of metadata-at-accept ++ frames fanned out since). Hypotheses shown satisfiable on "
+                  "concrete cases, one with a removed client. harness_ok (what the exporter drained from its channel = what the harness described and emitted: the end-to-end delivery clause) "
+                  "is a hypothesis of that theorem and is evaluated on every run, not proved: it depends on the channel and the should_send gate seen from other threads, which are not modelled "
+                  "(the Metric encoding is modelled, proved invertible and compared byte for byte per run). The emitter-to-transport wake-up handshake is covered on the code by test only: a "
+                  "free-running engine (real exporter thread, reading clients, emitters paced at about the drain rate, rounds within the buffer; a stall = nothing arrives for 15 s while emissions "
+                  "are outstanding) samples schedules and proves nothing. Wake.v is a SEPARATE model: Model.v has no emitter-side push step (it starts at what a wake-up drained), so no lemma links "
+                  "the two, and Wake.v is not tied to the code by trace validation (emitter-side steps are not hooked). `overflowed` is a ghost flag set where drop-oldest discards (to_drain > 0). "
+                  "Trusted: Coq kernel; hand-written model; cfg(metrics_verif) hooks (event log, socket wrapper that scripts some write results).")
     assumptions = [
         "mio readiness, kernel socket buffers and the crossbeam channel are the runtime's (exercised, not modelled); the harness paces emissions so that at most buffer_size channel messages are in flight",
         "EINTR and part of the EAGAIN / short-write results of conn.write are injected by the cfg(metrics_verif) socket wrapper (a non-blocking loopback socket does not return EINTR on Linux); the rest come from the kernel",
